@@ -8,7 +8,7 @@ checks=[]; claimed=set()
 for p in props:
     pid=p['id']
     sp=V+'/harness/%s/spec.json'%pid
-    if not os.path.exists(sp) or pid in meta.get('disabled',{}): continue
+    if not os.path.exists(sp) or pid in meta.get('disabled',{}) or pid not in meta.get('registered',[]): continue
     spec=json.load(open(sp))
     m=meta['checks'].get(pid,{})
     claimed.add(pid)
